@@ -267,7 +267,7 @@ func docPath(i int) string {
 	return p
 }
 
-var ops = []string{"text", "markdown", "jsonl", "csv", "document", "contentstream", "sharedreader", "chunkops", "htmlnav", "tables"}
+var ops = []string{"text", "markdown", "jsonl", "csv", "document", "contentstream", "sharedreader", "chunkops", "htmlnav", "tables", "extractorreuse", "coldburst"}
 
 // runOp performs one extraction and returns a canonical byte string of its result.
 func runOp(doc int, op string) string {
@@ -431,6 +431,59 @@ func runOp(doc int, op string) string {
 		again, _, e2 := tabula.FromReader(r).Text()
 		fmt.Fprintf(&b, "second Text() through the shared reader: equal=%v\n", again == first && (e1 == nil) == (e2 == nil))
 		return b.String()
+	case "coldburst":
+		// eight goroutines, released together, read the four navigation documents under Standard and Aggressive
+		// exclusion. In the fresh process that computes the baseline this is the first HTML work of the process:
+		// whatever the package sets up lazily on first use is set up by all of them at once (the processes are
+		// built with -race)
+		if d.kind != "html" {
+			return "n/a"
+		}
+		out := make([]string, 8)
+		start := make(chan struct{})
+		var wg sync.WaitGroup
+		for g := 0; g < 8; g++ {
+			wg.Add(1)
+			go func(g int) {
+				defer wg.Done()
+				<-start
+				r, err := htmldoc.OpenReader(bytes.NewReader(navDoc(g % 4)))
+				if err != nil {
+					out[g] = err.Error()
+					return
+				}
+				o := htmldoc.DefaultExtractOptions()
+				if g >= 4 {
+					o.NavigationExclusion = htmldoc.NavigationExclusionAggressive
+				}
+				t, _ := r.TextWithOptions(o)
+				m, _ := r.MarkdownWithOptions(o)
+				out[g] = t + "\n--\n" + m
+			}(g)
+		}
+		close(start)
+		wg.Wait()
+		return strings.Join(out, "\n====\n")
+	case "extractorreuse":
+		// one text.Extractor used for two content streams in turn: what it returned for the first one stays as it
+		// was, and the second answer is the one a fresh extractor gives
+		a := []byte(fmt.Sprintf("BT /F1 12 Tf 72 700 Td (Alpha %d) Tj 0 -14 Td (Bravo) Tj 0 -14 Td (Charlie) Tj ET", doc))
+		b := []byte(fmt.Sprintf("BT /F1 10 Tf 50 600 Td (Xray %d) Tj 0 -12 Td (Yankee) Tj ET", doc))
+		dump := func(fs []text.TextFragment) string {
+			var sb strings.Builder
+			for _, f := range fs {
+				fmt.Fprintf(&sb, "%q@%.2f,%.2f/%.1f ", f.Text, f.X, f.Y, f.FontSize)
+			}
+			return sb.String()
+		}
+		e := text.NewExtractor()
+		ra, _ := e.ExtractFromBytes(a)
+		raw := e.GetFragmentsRaw()
+		before, beforeRaw := dump(ra), dump(raw)
+		rb, _ := e.ExtractFromBytes(b)
+		fresh, _ := text.NewExtractor().ExtractFromBytes(b)
+		return fmt.Sprintf("%s\n%s\nfirst result after the second extraction: equal=%v, raw fragments: equal=%v, second result as from a fresh extractor: equal=%v",
+			before, dump(rb), dump(ra) == before, dump(raw) == beforeRaw, dump(rb) == dump(fresh))
 	case "contentstream":
 		// the anchor of the property: parse a content stream directly
 		prog := []byte(fmt.Sprintf("q 1 0 0 1 %d 10 cm BT /F1 12 Tf 72 700 Td (doc %d) Tj [(a) -120 (b)] TJ ET Q", doc, doc))
@@ -482,7 +535,7 @@ func baselineOf(doc int, op string) (string, error) {
 	if d := getDoc(doc); d.kind != "html" || doc%8 != 3 {
 		docPath(doc)
 	}
-	p, err := iso.NewPool(os.Args[0], 1, "VERIF_C03_TMP="+tmpDir)
+	p, err := iso.NewPool(os.Args[0], 1, "VERIF_C03_TMP="+tmpDir, "GORACE=halt_on_error=1")
 	if err != nil {
 		return "", fmt.Errorf("INFRA: cannot start baseline process: %v", err)
 	}
@@ -490,6 +543,9 @@ func baselineOf(doc int, op string) (string, error) {
 	payload := make([]byte, 4)
 	binary.LittleEndian.PutUint32(payload, uint32(doc))
 	v := p.Run("extract", append(payload, op...))
+	if v.Kind == "race" {
+		return "", fmt.Errorf("the race detector reports a data race in a fresh process that ran %s of document %d and nothing else:\n%s", op, doc, v.Msg)
+	}
 	if v.Kind != "ok" {
 		return "", fmt.Errorf("INFRA: baseline process for %s: %s %s", key, v.Kind, v.Msg)
 	}
@@ -563,6 +619,9 @@ func compare(where string, doc int, op, got string) error {
 	want, err := baselineOf(doc, op)
 	if err != nil {
 		return err
+	}
+	if op == "extractorreuse" && strings.Contains(got, "equal=false") {
+		return fmt.Errorf("%s: a text.Extractor used for a second content stream: %s", where, got)
 	}
 	if op == "htmlnav" && strings.Contains(got, "equal=false") {
 		return fmt.Errorf("%s: one htmldoc.Reader of document %d gives different answers when asked again: %.300s", where, doc, got[strings.Index(got, "one reader:"):])
